@@ -7,6 +7,7 @@ EXTENDS XoSpecialize, Json
 SeqOfSet(S) == SetToSeq(S)
 LineOut(ln) == IF ln.k \in {"only"} THEN [k |-> ln.k, c |-> SeqOfSet(ln.c)]
                ELSE IF ln.k = "inc" THEN [k |-> ln.k, f |-> ln.f, c |-> SeqOfSet(ln.c)]
+               ELSE IF ln.k = "vec" THEN [k |-> ln.k, h |-> ln.h]
                ELSE [k |-> ln.k]
 Rec(s) ==
   LET u == USplice(s) IN
